@@ -824,6 +824,100 @@ example : runAddBridgeToken "eth".toList [] { wToken with Decimals := 6 } = .err
 /-- the module name matters (it is the keeper's, not the claim's `ChainName`) -/
 example : runAddBridgeToken "bsc".toList [] wToken ≠ runAddBridgeToken "eth".toList [] wToken := by decide +kernel
 
+/-! ## the WRITES of every handler are the voted ones (round 4): the handler bodies as interpreted control-flow programs
+
+`flow_<tag>` (Gen/C03.lean, REGENERATED by go/extract/c03flow.go) is the code that executes a claim of each type —
+`SendToFxExecuted`, `BridgeCallHandler`, `BridgeCallResultHandler`, `UpdateOracleSetExecuted`, `AddBridgeTokenExecuted`, the
+`MsgSendToExternalClaim` case of `AttestationHandler` — compiled statement by statement into instructions (assignments,
+calls, conditional jumps, `range` loops, returns) that `Model/C03Flow.lean` `exec` INTERPRETS.  The Go expressions inside are
+opaque functions of their leaves and of the state; a leaf is a local variable or a claim read, and a claim read gets its value
+from the regenerated `handlerView` under the (function, shape) key the view scan gave it.  The theorems hold for EVERY meaning
+of the opaque functions (`FSem`: any state type, any value type, any deterministic semantics of each expression, of truth and
+of `range`), i.e. for the real bank / erc20 / evm / ibc keepers, which are not modelled. -/
+
+/-- every statement of the six handler bodies was recognised by the translator, and every jump lands inside its program -/
+theorem flows_modelled :
+    (flowModelled flow_stf && flowModelled flow_bc && flowModelled flow_bcr && flowModelled flow_ste && flowModelled flow_bt
+      && flowModelled flow_osu) = true := by decide
+
+/-- every claim read of a flow is an entry of the handler view of that claim type: the flow sees nothing of the claim that
+the view (and so `handler_view_is_voted`) does not cover -/
+theorem flow_reads_in_view (c : AnyClaim) : flowResolves c.flow c.handlerView = true := by
+  cases c <;> rfl
+
+/-- conversely, every entry the view scan found inside the compiled function is read by the flow (the two translations of
+the same body agree on what is read of the claim) -/
+theorem flow_covers_view (c : AnyClaim) : flowCovers c.flow c.flowFns c.handlerView = true := by
+  cases c <;> rfl
+
+/-- claims with the same effect-relevant fields have the same type, so the same flow -/
+theorem flow_of_effect {c₁ c₂ : AnyClaim} (h : c₁.effect = c₂.effect) : c₁.flow = c₂.flow := by
+  cases c₁ <;> cases c₂ <;> simp only [AnyClaim.effect, reduceCtorEq] at h <;> rfl
+
+/-- for every semantics of the opaque parts, every state and every fuel: what executing a claim does — final state, returned
+values, how it ended — is determined by the claim's type and its handler view -/
+theorem handler_flow_of_view {σ ν : Type} (sem : FSem σ ν) (fuel : Nat) (st : σ) (c₁ c₂ : AnyClaim)
+    (hf : c₁.flow = c₂.flow) (hv : c₁.handlerView = c₂.handlerView) :
+    AnyClaim.runFlow sem fuel st c₁ = AnyClaim.runFlow sem fuel st c₂ := by
+  simp only [AnyClaim.runFlow, hf, hv]
+
+/-- **over all histories, for all six handlers**: whenever an attestation is observed, executing the claim object the handler
+was given — in any state, under any semantics of the keepers' functions — does exactly what executing the claim object of
+ANY tallied voter would have done -/
+theorem executed_flow_is_voted {η : Type} [DecidableEq η] (H : Str → η) (le : η → η → Bool) (ops : List Op)
+    (wf : ∀ c ∈ Op.claims ops, c.wellFormed = true)
+    (collisionFree : ∀ c₁ ∈ Op.claims ops, ∀ c₂ ∈ Op.claims ops, H c₁.path = H c₂.path → c₁.path = c₂.path)
+    {σ ν : Type} (sem : FSem σ ν) (fuel : Nat) (st : σ) :
+    ∀ e ∈ (run (fun c => H c.path) le {} ops).executed, ∀ v ∈ e.tallied,
+      AnyClaim.runFlow sem fuel st v.2 = AnyClaim.runFlow sem fuel st e.claim := by
+  intro e he v hv
+  have hview := executed_view_is_voted H le ops wf collisionFree e he v hv
+  have heff := executed_is_voted H le ops (fun c hc => valid_of_wellFormed (wf c hc)) collisionFree e he v hv
+  exact handler_flow_of_view sem fuel st _ _ (flow_of_effect heff) hview
+
+/-- … and the same for the claims `ExecuteClaim` runs later from the pending store (send-to-fx, bridge call, bridge-call
+result): running the stored copy does what running any tallied voter's claim would have done -/
+theorem ran_flow_is_voted {η : Type} [DecidableEq η] (H : Str → η) (le : η → η → Bool) (ops : List Op)
+    (wf : ∀ c ∈ Op.claims ops, c.wellFormed = true)
+    (collisionFree : ∀ c₁ ∈ Op.claims ops, ∀ c₂ ∈ Op.claims ops, H c₁.path = H c₂.path → c₁.path = c₂.path)
+    {σ ν : Type} (sem : FSem σ ν) (fuel : Nat) (st : σ) :
+    ∀ c ∈ (run (fun c => H c.path) le {} ops).ran,
+      ∃ e ∈ (run (fun c => H c.path) le {} ops).executed, e.claim = c ∧
+        ∀ v ∈ e.tallied, AnyClaim.runFlow sem fuel st v.2 = AnyClaim.runFlow sem fuel st c := by
+  intro c hc
+  obtain ⟨e, he, hec⟩ := (pendInv_run attestTrySites attestLookup (fun c => H c.path) le ops {} pendInv_init).2 c hc
+  exact ⟨e, he, hec, fun v hv => hec ▸ executed_flow_is_voted H le ops wf collisionFree sem fuel st e he v hv⟩
+
+/-- a semantics for the examples: the state is the trace of the expressions evaluated, a value is the claim values it was
+computed from, a condition holds iff its value is the text `FX` -/
+def traceSem : FSem (List String) (List HLeaf) where
+  op := fun src args st => (st ++ [src], args.flatten)
+  proj := fun _ v => v
+  truth := fun v => v == [.str "FX".toList]
+  elems := fun v => match v with
+    | [.strs l] => l.map fun x => ([.str x], [.str x])
+    | _ => []
+  ofView := id
+  undef := []
+
+/-- non-vacuity: the interpreter really follows the regenerated control flow — under `traceSem` the bridge-token flow takes
+the `Symbol == FX` branch for `wToken` (two `AddBridgeToken` calls) and not for another symbol -/
+example : (AnyClaim.runFlow traceSem 100 [] (.bt wToken)).how = .returned
+    ∧ (AnyClaim.runFlow traceSem 100 [] (.bt wToken)).state.count "k.AddBridgeToken(ctx, fxtypes.DefaultDenom, bridgeDenom)" = 1
+    ∧ (AnyClaim.runFlow traceSem 100 [] (.bt { wToken with Symbol := "A".toList })).state.count "k.AddBridgeToken(ctx, fxtypes.DefaultDenom, bridgeDenom)" = 0
+    ∧ (AnyClaim.runFlow traceSem 100 [] (.bt { wToken with Symbol := "A".toList })).how = .returned := by decide +kernel
+/-- the `range` loop of `BridgeCallHandler` runs once per token contract -/
+example : (AnyClaim.runFlow traceSem 200 [] (.bc { wCall with TokenContracts := [ethA, ethB], Amounts := [some 1, some 2] })).state.count
+            "k.BridgeTokenToBaseCoin(ctx, address, msg.Amounts[i], receiverAddr.Bytes())" = 2
+    ∧ (AnyClaim.runFlow traceSem 200 [] (.bc wCall)).state.count
+            "k.BridgeTokenToBaseCoin(ctx, address, msg.Amounts[i], receiverAddr.Bytes())" = 0 := by decide +kernel
+/-- a flow that read a field the view does not list (the relayer's own address) would not resolve -/
+example : flowResolves [.eval ⟨"k.credit(ctx, claim.BridgerAddress)", [.read "SendToFxExecuted" "BridgerAddress"]⟩]
+    (AnyClaim.stf { EventNonce := 7, BlockHeight := 9, TokenContract := ethA, Amount := some 5, Sender := ethB, Receiver := bech,
+                    TargetIbc := [], BridgerAddress := bech, ChainName := [] }).handlerView = false := by decide +kernel
+/-- … and an unrecognised statement or a jump out of the program is not `flowModelled` -/
+example : flowModelled [.unknown "switch"] = false ∧ flowModelled [.jmp 5] = false ∧ flowModelled [] = false := by decide
+
 /-! ## the store keys (round 3): `GetAttestationKey` / `GetPendingExecuteClaimKey` byte layouts, regenerated from key.go
 
 The attestation model files votes under the PAIR (event nonce, claim hash); the code files them under the byte string
